@@ -66,6 +66,10 @@ def _resolve_type(type_: Any, memo: TypeCheckMemo) -> Any:
     if isinstance(type_, ForwardRef):
         return _evaluate_forwardref(type_, memo)
     origin = get_origin(type_)
+    if origin is Annotated:
+        # Only the annotated type can contain references; the metadata are arbitrary objects (e.g., strings)
+        primary, *metadata = get_args(type_)
+        return Annotated[(_resolve_type(primary, memo), *metadata)]  # type: ignore[return-value]
     if origin:
         args = get_args(type_)
         resolved_args = tuple(_resolve_type(arg, memo) for arg in args)
